@@ -160,6 +160,14 @@ public:
         return num_elements;
     }
 
+    /// Reads exactly count bytes, a premature end of the input is an error.
+    void read_exact(byte_t* data, std::size_t count)
+    {
+        io_error_if( read( data, count ) != count
+                   , "file_stream_device: unexpected end of file"
+                   );
+    }
+
     /// Reads array
     template< typename T, int N>
     void read( T (&buf)[N] )
@@ -367,11 +375,21 @@ public:
         return static_cast< std::size_t >( cr );
     }
 
+    /// Reads exactly count bytes, a premature end of the input is an error.
+    void read_exact(byte_t* data, std::size_t count)
+    {
+        io_error_if( read( data, count ) != count
+                   , "istream_device: unexpected end of stream"
+                   );
+    }
+
     /// Reads array
     template<typename T, int N>
     void read(T (&buf)[N])
     {
-        read(buf, N);
+        io_error_if( read( buf, N ) < N
+                   , "istream_device: stream read error"
+                   );
     }
 
     /// Reads byte
